@@ -7,7 +7,8 @@ From Coq Require Import String ZArith List Bool Lia.
 From Nexus Require Import Transport.GoArith Transport.RawOps Transport.RawFrame Transport.RawSpec
   Transport.RawProofs Transport.ArithLemmas Transport.RawGen Transport.RawConformArith
   Transport.RawConformFrame Transport.RawHandshake Transport.RawConformHandshake
-  Transport.PeerDiscipline Transport.PeerDisciplineProofs Transport.RawLegacy gen.GenC15.
+  Transport.PeerDiscipline Transport.PeerDisciplineProofs Transport.RawLegacy
+  Transport.WsPeer Transport.WsPeerProofs Transport.RawConformWs gen.GenC15.
 Import ListNotations.
 Open Scope Z_scope.
 
@@ -98,4 +99,13 @@ Proof.
     destruct Hf as (b & <- & _). unfold frame_acts_w. apply skel_fill_writes. reflexivity.
   - unfold reader_frames. apply Forall_forall. intros f Hf. apply in_map_iff in Hf.
     destruct Hf as (hp & <- & _). unfold frame_acts_r. apply skel_fill_writes. reflexivity.
+Qed.
+
+(** ** websocket sender loops *)
+
+Theorem ws_unserialisable_dropped_alone_gen : forall (M : Type) (ser : M -> option (list Z)) msgs,
+  ws_send M ser GenC15.ws_send_plain msgs = keep_ser M ser msgs /\
+  ws_send M ser GenC15.ws_send_keepalive msgs = keep_ser M ser msgs.
+Proof.
+  intros. split; apply ws_send_keeps; [exact gen_ws_plain_ok|exact gen_ws_keepalive_ok].
 Qed.
